@@ -252,7 +252,9 @@ def _account_def(stats, plan, tr):
         stats.probe('sessions_of_two_streams_scanned_by_one_decoder')
     if plan['knobs'].get('wire') is False:
         stats.probe('sessions_scanned_without_wiring')
-    if plan['knobs'].get('filter'):
+    if plan['knobs'].get('rejects_definitions'):
+        stats.probe('sessions_under_a_filter_that_rejects_the_definition_messages')
+    elif plan['knobs'].get('filter'):
         stats.probe('sessions_with_an_all_accepting_filter')
 
 
